@@ -289,6 +289,10 @@ impl Field {
         }
 
         Ok(match name {
+            // `Scheme` parses an empty string without error, but a scheme is never empty
+            b":scheme" if value.as_ref().is_empty() => {
+                return Err(HeaderError::invalid_value(name, value))
+            }
             b":scheme" => Field::Scheme(try_value(name, value)?),
             //= https://www.rfc-editor.org/rfc/rfc9114#section-4.3.1
             //# If these fields are present, they MUST NOT be
